@@ -1077,3 +1077,97 @@ def order_value(e, ranks, syms):
     if e[0] == 'call' and e[1] in ('clip',) and len(e[2]) == 3:
         return order_value(('call', 'py.min', (('call', 'py.max', (e[2][0], e[2][1])), e[2][2])), ranks, syms)
     return None
+
+
+# ------------------------------------------------------------------------------------------------------ row masks as truth tables
+VALID_FNS = {'.notnull', '.notna', 'isfinite', 'notnull', 'notna'}
+MISSING_FNS = {'isnan', '.isnull', '.isna', 'isnull', 'isna'}
+
+
+def selector_mask(sel):
+    """the boolean mask behind a row selector: m, (m, :), np.nonzero(m), np.flatnonzero(m), np.where(m), np.nonzero(m)[0]"""
+    if isinstance(sel, tuple) and sel and sel[0] == 'tuple' and len(sel[1]) == 2 and sel[1][1] == ('call', 'slice', (('sym', 'None'),) * 3):
+        return selector_mask(sel[1][0])
+    if call_named(sel, "getitem") and sel[2][1] == ('num', 0) and (call_named(sel[2][0], "nonzero") or call_named(sel[2][0], "where")) and len(sel[2][0][2]) == 1:
+        return selector_mask(sel[2][0][2][0])
+    if (call_named(sel, "nonzero") or call_named(sel, "flatnonzero") or call_named(sel, "where")) and len(sel[2]) == 1:
+        return selector_mask(sel[2][0])
+    return sel
+
+
+def mask_truth(e, leaf):
+    """value (True / False / None) of a per-row boolean mask for one row, given leaf(expr) -> True / False / None for the atomic tests
+    (`valid(x)` / `missing(x)` of a series, `any` / `all` of those along the members of a row)"""
+    if not isinstance(e, tuple) or not e:
+        return None
+    r = leaf(e)
+    if r is not None:
+        return r
+    k = e[0]
+    if k in ('not', 'bnot') or (k == 'call' and e[1] in ('invert', 'logical_not') and len(e[2]) == 1):
+        a = mask_truth(e[1] if k != 'call' else e[2][0], leaf)
+        return None if a is None else not a
+    if k in ('and', 'or', 'band', 'bor') or (k == 'call' and e[1] in ('logical_and', 'logical_or') and len(e[2]) == 2):
+        x, y = (e[1], e[2]) if k != 'call' else e[2]
+        a, b = mask_truth(x, leaf), mask_truth(y, leaf)
+        conj = k in ('and', 'band') or (k == 'call' and e[1] == 'logical_and')
+        if conj:
+            if a is False or b is False:
+                return False
+            return True if (a is True and b is True) else None
+        if a is True or b is True:
+            return True
+        return False if (a is False and b is False) else None
+    return None
+
+
+def series_leaf(series_of):
+    """leaf classifier for mask_truth.  series_of(expr) names the data series an expression stands for (or None); the returned
+    function maps atomic tests to variables: ('valid', s) for 1-D series, ('any', s) / ('all', s) for the members of a 2-D one."""
+    def atom(e):
+        if e[0] != 'call':
+            return None
+        name, args = e[1], e[2]
+        kws = dict(e[3]) if len(e) > 3 else {}
+        x = args[-1] if name.startswith('.') and len(args) == 2 and args[0] in (('sym', 'pd'), ('sym', 'np')) else (args[0] if len(args) >= 1 else None)
+        if x is None:
+            return None
+        if name in VALID_FNS or name in MISSING_FNS:
+            s = series_of(x)
+            return (('valid', s), name in VALID_FNS) if s else None
+        if name in ('any', 'all', '.any', '.all') and (kws.get('axis') in (('num', 1), ('num', -1)) or (len(args) == 2 and args[1] in (('num', 1), ('num', -1)))):
+            inner = atom(args[0])
+            if inner is None or inner[0][0] != 'valid':
+                return None
+            s = inner[0][1]
+            # any(valid) = ANY ; all(valid) = ALL ; any(missing) = not ALL ; all(missing) = not ANY
+            isany = name.lstrip('.') == 'any'
+            if inner[1]:
+                return (('any' if isany else 'all', s), True)
+            return (('all' if isany else 'any', s), False)
+        return None
+    return atom
+
+
+def mask_table(e, series_of, series):
+    """truth table of a row mask over every consistent assignment of: valid(s) for 1-D series, (any, all) valid members for 2-D series
+    `series` = {name: 1 | 2}.  -> dict assignment(tuple of items) -> True / False / None"""
+    import itertools
+    atom = series_leaf(series_of)
+    vars_ = []
+    for s, nd in sorted(series.items()):
+        vars_ += [('valid', s)] if nd == 1 else [('any', s), ('all', s)]
+    out = {}
+    for vals in itertools.product((False, True), repeat=len(vars_)):
+        asg = dict(zip(vars_, vals))
+        if any(asg.get(('all', s)) and not asg.get(('any', s)) for s, nd in series.items() if nd == 2):
+            continue
+
+        def leaf(x, asg=asg):
+            a = atom(x)
+            if a is None:
+                return None
+            v = asg.get(a[0])
+            return None if v is None else (v if a[1] else not v)
+        out[tuple(sorted(asg.items()))] = mask_truth(e, leaf)
+    return out
